@@ -57,7 +57,10 @@ def user_payload(e):
     a = getattr(e, 'args', None)
     if a and isinstance(a[0], tuple) and len(a[0]) == 2 and a[0][0] == 'BOOM':
         # None (what an absent field reads as) is reported as '<None>': a payload of None means "nothing raised"
-        return True, ('<None>' if a[0][1] is None else a[0][1])
+        v = a[0][1]
+        if isinstance(v, BaseException):
+            v = norm_cell(v)
+        return True, ('<None>' if v is None else v)
     return False, None
 
 
@@ -169,6 +172,44 @@ class Rec(tuple):
         raise AttributeError(f)
 
 
+# ---- exception OBJECTS as ordinary data -----------------------------------------------------------------------
+# A cell may hold an exception instance that nobody raised in this stage (present in the source data, or left by
+# an upstream stage run with failonerror='inline').  It is data: the policy reacts only to exceptions RAISED by
+# the user function of THIS stage.  In case dicts such a cell is written as the marker ('DATAEXC', class, tag)
+# (replayable); materialise() turns markers into instances class(('DATA', tag)).
+DATA_CLASSES = {'Boom': Boom, 'ValueError': ValueError, 'KeyError': KeyError}
+DATA_CLASS_ORDER = ('Boom', 'ValueError', 'KeyError')
+
+
+def is_marker(c):
+    return isinstance(c, tuple) and len(c) == 3 and c[0] == 'DATAEXC'
+
+
+def materialise(tbl):
+    return [tuple(tbl[0])] + [tuple(DATA_CLASSES[c[1]](('DATA', c[2])) if is_marker(c) else c for c in r)
+                              for r in tbl[1:]]
+
+
+def norm_cell(c):
+    """Comparable rendering of a delivered / expected cell: an exception object becomes
+    ('DATAEXC', class, tag) if it is a data exception, (EXC, payload) if a user function of the test raised it,
+    (EXC, '*') otherwise."""
+    if isinstance(c, BaseException):
+        a = getattr(c, 'args', None)
+        if a and isinstance(a[0], tuple) and len(a[0]) == 2 and a[0][0] == 'DATA':
+            return ('DATAEXC', type(c).__name__, a[0][1])
+        return (EXC, payload_of(c))
+    return c
+
+
+def norm_row(r):
+    return tuple(norm_cell(c) for c in r)
+
+
+def is_exc_value(v):
+    return isinstance(v, BaseException)
+
+
 # StopIteration raised while an ITERATOR's __next__ runs is, by the iterator protocol, the end of that iterator
 # and not a failure (tuple(map(f, row)) just stops); only generators turn it into RuntimeError (PEP 479).
 STOPITERATION_IS_EXHAUSTION = ('rowmap(f -> map object)', 'rowmap(f -> iterator object)')
@@ -182,9 +223,12 @@ HEADER = ('a', 'b')
 STYLES = ('num', 'int', 'str')
 
 
-def cell(style, reps, i, f, bad):
-    """Cell of row i, field f (0/1).  `bad` cells make the form's user function raise."""
+def cell(style, reps, i, f, bad, exc=None):
+    """Cell of row i, field f (0/1).  `bad` cells make the form's user function raise; exc = class name:
+    the cell holds an exception object as data (written as a marker)."""
     tag = reps['s1'] if f == 0 else reps['s2']
+    if exc is not None:
+        return ('DATAEXC', exc, '%s%d' % (tag, i))
     if style == 'num':       # numeric text / text starting with '!'
         return ('!%s%d' % (tag, i)) if bad else str(reps['i1'] * 10 + 2 * i + f)
     if style == 'int':       # int / text starting with '!'
@@ -194,25 +238,28 @@ def cell(style, reps, i, f, bad):
     raise ValueError(style)
 
 
-def table(style, reps, n, badcells):
-    """Header + n rows; badcells is a set of (row, field)."""
-    return [HEADER] + [tuple(cell(style, reps, i, f, (i, f) in badcells) for f in (0, 1)) for i in range(n)]
+def table(style, reps, n, badcells, exccells=(), dclass='Boom'):
+    """Header + n rows; badcells / exccells are sets of (row, field)."""
+    return [HEADER] + [tuple(cell(style, reps, i, f, (i, f) in badcells, dclass if (i, f) in exccells else None)
+                             for f in (0, 1)) for i in range(n)]
 
 
 RAGGED_STATES = [(a, b) for a in ('ok', 'bad') for b in ('ok', 'bad', 'absent')] + ['empty']
+RAGGED_STATES_EXC = [(a, b) for a in ('ok', 'bad', 'exc') for b in ('ok', 'bad', 'exc', 'absent')] + ['empty']
 
 
-def ragged_table(reps, states):
-    """Header + rows that may be short: per row (a state, b state) with b possibly 'absent', or 'empty' = ()."""
+def ragged_table(reps, states, dclass='Boom'):
+    """Header + rows that may be short: per row (a state, b state) with b possibly 'absent', or 'empty' = ();
+    state 'exc': the cell holds an exception object as data."""
     rows = []
     for i, st in enumerate(states):
         if st == 'empty':
             rows.append(())
             continue
         a, b = st
-        row = [cell('num', reps, i, 0, a == 'bad')]
+        row = [cell('num', reps, i, 0, a == 'bad', dclass if a == 'exc' else None)]
         if b != 'absent':
-            row.append(cell('num', reps, i, 1, b == 'bad'))
+            row.append(cell('num', reps, i, 1, b == 'bad', dclass if b == 'exc' else None))
         rows.append(tuple(row))
     return [HEADER] + rows
 
@@ -232,9 +279,11 @@ def many_cell(beh):
     return ('!%d' % k) if kind == 'fail' else 'k%d' % k
 
 
-def many_table(reps, behaviours):
-    """behaviours: per row ('ok', m) = yields m rows, ('fail', k) = yields k rows then raises."""
-    return [HEADER] + [('%s%d' % (reps['s1'], i), many_cell(b)) for i, b in enumerate(behaviours)]
+def many_table(reps, behaviours, excrows=(), dclass='Boom'):
+    """behaviours: per row ('ok', m) = yields m rows, ('fail', k) = yields k rows then raises;
+    rows in excrows carry an exception object (as data) in their a cell."""
+    return [HEADER] + [(('DATAEXC', dclass, '%s%d' % (reps['s1'], i)) if i in excrows
+                        else '%s%d' % (reps['s1'], i), many_cell(b)) for i, b in enumerate(behaviours)]
 
 
 # ------------------------------------------------------------------------------------------------
@@ -247,6 +296,8 @@ def is_bang(v):
 
 @user
 def conv(v):
+    if is_exc_value(v):
+        return v          # hands an exception OBJECT on as a value; nothing is raised
     if is_bang(v):
         _fail(v)
     return _ret('c:%s' % (v,))
@@ -254,6 +305,8 @@ def conv(v):
 
 @user
 def conv2(v):
+    if is_exc_value(v):
+        return v          # hands an exception OBJECT on as a value; nothing is raised
     if is_bang(v):
         _fail(v)
     return _ret('d:%s' % (v,))
@@ -261,6 +314,8 @@ def conv2(v):
 
 @user
 def conv_row(v, row):
+    if is_exc_value(v):
+        return v
     if is_bang(v):
         _fail(v)
     return _ret('%s<%s>' % (v, '/'.join(str(x) for x in row)))
@@ -269,6 +324,8 @@ def conv_row(v, row):
 @user
 def convs(v):
     """Strict converter: also chokes on the None an absent field reads as."""
+    if is_exc_value(v):
+        return v
     if v is None or is_bang(v):
         _fail(v)
     return _ret('s:%s' % (v,))
@@ -446,7 +503,7 @@ def _try(fn, *args):
     try:
         return ('ok', fn(*args))
     except Exception as e:
-        return ('fail', payload_of(e))
+        return ('fail', payload_of(e), e)
 
 
 def _ok(v):
@@ -523,6 +580,8 @@ FORMS = {
                                               model=lambda r: [_try(int, r[0]), _ok(r[1])]),
     'fieldmap()[p] = (a, f); [q] = b': dict(style='num', level='cell', header=('p', 'q'),
                                             model=lambda r: [_try(conv, r[0]), _ok(r[1])]),
+    'fieldmap{a: (a, f), b: b}':   dict(style='num', level='cell', header=HEADER,
+                                        model=lambda r: [_try(conv, r[0]), _ok(r[1])]),
     # ---- rowmap (row level)
     'rowmap(f)':                   dict(style='num', level='row', header=('x', 'y', 'z'),
                                         model=lambda r: _rows_of(rowmapper, r)),
@@ -581,7 +640,13 @@ def has_errorvalue(form):
 # expected observation
 # ------------------------------------------------------------------------------------------------
 
-def expected(form, tbl, policy, errorvalue=OMIT, selected=None, state='pure'):
+def expected_pipeline(upstream, form, tbl, policy, errorvalue=OMIT):
+    """Two stages: `upstream` run with failonerror='inline' feeds `form` run with the policy under test."""
+    t1 = expected(upstream, tbl, 'inline', OMIT, None, 'pure', raw=True)['rows']
+    return expected(form, t1, policy, errorvalue)
+
+
+def expected(form, tbl, policy, errorvalue=OMIT, selected=None, state='pure', raw=False):
     """Expected observation of one full pass.
 
     Returns dict(rows=[header, row, ...], raises=None|[payload, ...], optional=k, log=[...]):
@@ -604,6 +669,8 @@ def expected(form, tbl, policy, errorvalue=OMIT, selected=None, state='pure'):
                 log = log[:i + 1]
                 break
     res['log'] = log
+    if not raw:
+        res['rows'] = [norm_row(r) for r in res['rows']]
     return res
 
 
@@ -623,7 +690,7 @@ def _expected(form, tbl, policy, errorvalue, selected):
             elif policy is True:
                 return {'rows': out, 'raises': [c[1] for c in fails], 'optional': 0}
             elif policy == 'inline':
-                out.append(tuple((EXC, c[1]) if c[0] == 'fail' else c[1] for c in cells))
+                out.append(tuple(c[2] if c[0] == 'fail' else c[1] for c in cells))    # the exception object
             else:
                 out.append(tuple(ev if c[0] == 'fail' else c[1] for c in cells))
         else:
